@@ -597,9 +597,9 @@ func init() {
 		rv, st1 := x.eval(n.Args[0], st)
 		c := x.c
 		o := Obj{"bufio.Reader", map[string]Val{}}
-		if src, ok := rv.(Obj); ok && src.Kind == "bytes.Buffer" {
+		if src, ok := memSource(rv); ok {
 			// reading from an in-memory buffer: the stream is the buffer's content, it never faults
-			out := c.normView(src.F["out"].(Sl))
+			out := c.normView(src)
 			o.F["id"] = scInt(c.fresh("bufid", SInt))
 			o.F["in"] = out.Arr
 			o.F["end"] = scInt(out.Len)
@@ -730,10 +730,10 @@ func init() {
 		rv, st1 := x.eval(n.Args[0], st)
 		c := x.c
 		o := Obj{"bufio.Scanner", map[string]Val{}}
-		if src, ok := rv.(Obj); ok && src.Kind == "bytes.Buffer" {
+		if src, ok := memSource(rv); ok {
 			// scanning an in-memory buffer: the lines are the ScanLines split of its content (specs/00base.spec, lnN/lnS/lnT/lnE);
 			// the only possible failure is a line longer than the maximum token size (see Buffer)
-			out := c.normView(src.F["out"].(Sl))
+			out := c.normView(src)
 			c.usesStr = true
 			for _, f := range []string{"lnN", "lnS", "lnT", "lnE"} {
 				c.used[f] = true
@@ -1296,4 +1296,19 @@ func (x *Exec) concatAt(out Sl, pieces []Sl) Sl {
 	}
 	c.assumeDef(tEq(res.Len, off))
 	return res
+}
+
+// memSource: the byte sequence behind a reader that is an in-memory buffer (a *bytes.Buffer, or one passed as io.Reader).
+func memSource(v Val) (Sl, bool) {
+	o, ok := v.(Obj)
+	if !ok {
+		return Sl{}, false
+	}
+	if o.Kind == "bytes.Buffer" {
+		return o.F["out"].(Sl), true
+	}
+	if mb, ok := o.F["membuf"].(Sl); ok {
+		return mb, true
+	}
+	return Sl{}, false
 }
